@@ -916,6 +916,7 @@ func init() {
 		Level: "exploration",
 		Rule: "case = one generated configuration (1-4 jobs with scheme/path/params/intervals/honor flags/limits/relabel and metric-relabel programs/auth kinds/SD kinds, global section, rule files, alerting, remote write/read with secrets) hashed by the real prom.ConfigManager; " +
 			"for it every applicable entry of a catalogue of ~150 single-setting edits (each scalar, list entry added/removed, regex of scrape/metric/alert/write relabel rules, secrets, usernames, SD options, remote URLs) must change the hash; 7 re-renderings (indentation, quoting style, comments, key order, flow lists) and 3 external-label changes must not; every second case also loads the same bytes from a file in a nested directory (as the coordinator does; the generator emits relative rule-file and file-discovery paths) and compares with the raw-content hash (as a sidecar computes it); every 8th case also hashes the same text in 3 fresh processes and through a sidecar's /runtimeinfo/; " +
+			"plus processes wired as cmd/kvass wires them: a ConfigManager whose first reload callback rewrites the parsed configuration in place (service-account paths, kubernetes api_server) goes through reload / stop reason set / same again / cleared / reload / set, and every 16th case the real `kvass sidecar --inject.kubernetes-sa-path` process goes through the same steps over HTTP - the hash must stay the hash of the content; " +
 			"non-trivial = every case whose base configuration loads; distinct = hash of the base text",
 		Assumptions: []string{
 			"pure re-ordering of lists is not asserted either way",
